@@ -351,7 +351,8 @@ fn float_pool(rng: &mut Rng, thorough: bool) -> Vec<u64> {
 
 fn gen(tier: &str, seed: u64, out: &mut dyn FnMut(String)) {
     let thorough = tier == "thorough";
-    let mut rng = Rng::new(seed);
+    let mut rng = Rng::new(seed);          // the random streams
+    let mut det = Rng::new(0xC05);         // fixed filler for the enumerated part (does not depend on the seed)
     // ---- corpus of past failures (pinned tree): see the end of the stream for the frexp(±inf) cases (they hang; kept last so
     //      that the leaked spinning workers live as briefly as possible)
     out("unary rint f64 2,3 dom 0".to_string());
@@ -368,7 +369,7 @@ fn gen(tier: &str, seed: u64, out: &mut dyn FnMut(String)) {
         let n: usize = s.iter().product();
         let mut arrs = vec![tag(s), tag_off(s, 17)];
         // repeated and negative values: multiplicity must be kept
-        let reps: Vec<i64> = (0..n).map(|_| rng.range(-3, 3)).collect();
+        let reps: Vec<i64> = (0..n).map(|_| det.range(-3, 3)).collect();
         arrs.push(format!("{}:{}", show_list(s), show_list(&reps)));
         let same: Vec<i64> = vec![5; n];
         arrs.push(format!("{}:{}", show_list(s), show_list(&same)));
@@ -376,7 +377,7 @@ fn gen(tier: &str, seed: u64, out: &mut dyn FnMut(String)) {
             for c in &clos {
                 for op in cl_ops {
                     if (op == "for_each" || op == "for_each_e") && c != &clos[0] { continue; }
-                    if op == "fold" { out(format!("fold {a} {c} {}", rng.range(0, 50))); } else { out(format!("{op} {a} {c}")); }
+                    if op == "fold" { out(format!("fold {a} {c} {}", det.range(0, 50))); } else { out(format!("{op} {a} {c}")); }
                 }
             }
             out(format!("into_iter {a}"));
@@ -407,7 +408,7 @@ fn gen(tier: &str, seed: u64, out: &mut dyn FnMut(String)) {
             for ty in ["f64", "f32", "i32"] {
                 if ty == "i32" && OPS_FLOAT.contains(op) { continue; }
                 if thorough {
-                    for cls in classes { if ty == "i32" && cls != "dom" { continue; } out(format!("unary {op} {ty} {} {cls} {}", show_list(s), rng.below(50))); }
+                    for cls in classes { if ty == "i32" && cls != "dom" { continue; } out(format!("unary {op} {ty} {} {cls} {}", show_list(s), det.below(50))); }
                 } else {
                     // quick: every op x type x shape once, the value class rotating so that each op meets each class on many shapes
                     let cls = if ty == "i32" { "dom" } else { classes[(si + oi) % 4] };
